@@ -156,7 +156,7 @@ func C11(p *core.Program, r *core.Report) {
 
 	// ---- D4
 	retSpec := func(fnKey string, errAtom, errOutcome, okOutcome string) {
-		fn := mustFunc(p, r, "D4", fnKey)
+		fn := mustInl(p, r, "D4", fnKey)
 		if fn == nil {
 			return
 		}
@@ -446,7 +446,7 @@ func classifyMapLoop(p *core.Program, ml mapLoop) (class, why string) {
 func d1Lemmas(p *core.Program, r *core.Report) {
 	// isPageNumberSequence: the arg-max over mapSequenceEnd can only influence `nEmptyURL <= 1`,
 	// which holds anyway because the first scan rejects a second number without URL.
-	if fn := mustFunc(p, r, "D1-lemma", "(*mod/internal/pagination/info.PageNumbersState).isPageNumberSequence"); fn != nil {
+	if fn := mustInl(p, r, "D1-lemma", "(*mod/internal/pagination/info.PageNumbersState).isPageNumberSequence"); fn != nil {
 		hs := loopHeaders(fn)
 		ok := false
 		desc := "first loop not found"
@@ -485,7 +485,7 @@ func d1Lemmas(p *core.Program, r *core.Report) {
 	}
 	// newDetectionStateFromMonotonicNumbers: the candidates are visited in map order; this is only
 	// tolerable if evaluating one candidate cannot change what the next one sees.
-	if ev := mustFunc(p, r, "D1-lemma", "(mod/internal/pagination/info.ListLinkInfo).Evaluate"); ev != nil {
+	if ev := mustInl(p, r, "D1-lemma", "(mod/internal/pagination/info.ListLinkInfo).Evaluate"); ev != nil {
 		a := runPEA(p)
 		fw := a.FieldWrites(ev)
 		var fs []string
@@ -505,7 +505,7 @@ func d1Lemmas(p *core.Program, r *core.Report) {
 			fmt.Sprintf("fields of pre-existing objects written by Evaluate and its callees: %v; other effects: %v", fs, mods))
 	}
 	// RelevantTagNames: the only consumer ranges over the result and inserts into a set
-	if fn := mustFunc(p, r, "D1-lemma", "mod/internal/converter.NewDomConverter"); fn != nil {
+	if fn := mustInl(p, r, "D1-lemma", "mod/internal/converter.NewDomConverter"); fn != nil {
 		calls := core.Calls(fn, func(ci ssa.CallInstruction) bool { return core.IsCallTo(ci, "iface:RelevantTagNames") })
 		okAll := len(calls) == 1
 		desc := fmt.Sprintf("%d calls in NewDomConverter", len(calls))
